@@ -13,8 +13,8 @@ env = dict(os.environ, GOPROXY='off', GOSUMDB='off', GOTOOLCHAIN='local')
 env.pop('GOFLAGS', None)
 
 def run(cmd, cwd, timeout=1500):
-    p = subprocess.run(cmd, cwd=cwd, env=env, shell=True, capture_output=True, text=True, timeout=timeout)
-    return p.returncode, (p.stdout + p.stderr)[-3000:]
+    p = subprocess.run(cmd, cwd=cwd, env=env, shell=True, capture_output=True, timeout=timeout)
+    return p.returncode, (p.stdout + p.stderr).decode('utf-8', 'replace')[-3000:]
 
 wt = tempfile.mkdtemp(prefix='seedwt_', dir='/tmp')
 os.rmdir(wt)
